@@ -971,6 +971,68 @@ def field_is_none(ctx, body, sv, f):
 
 
 # ------------------------------------------------------------------------------------------------
+# work-around for two gaps of the shared normal form (described in the notes): closures handed over by reference
+# (`.try_fold(init, &mut record)`, one closure bound to a name and used by several chains) and adaptor chains bound to a name
+# before the `for`.  The shared Normalizer is reused unchanged, only its two look-ups are made to see through `&` and plain copies.
+# ------------------------------------------------------------------------------------------------
+def renormalised(ctx, body):
+    """the body of the same function, normalised again from the raw facts with the two look-ups widened; `body` itself if that
+    changes nothing or is not possible.  The result keeps the name (promoted constants are found under it); callers have to drop
+    the slicer's cached graph of that name before and after using it (see with_renormalised)."""
+    raw = getattr(ctx.F, 'raw', None)
+    if raw is None or body.name not in raw.bodies: return body
+    needs = False
+    for c in body.calls:
+        if (c.trait or '') == 'std::iter::Iterator' and c.item in ('try_fold', 'fold', 'for_each', 'try_for_each', 'find', 'find_map', 'any', 'all', 'position', 'map', 'filter', 'filter_map'): needs = True
+    if not needs: return body
+    try:
+        from .. import normalize
+        import os
+        known = normalize.load_known(os.path.join(os.path.dirname(__file__), 'tables', 'known_fns.json'))
+        if known is None: return body
+
+        class Wider(normalize.Normalizer):
+            def _closure_of(self, rw, op):
+                r = normalize.Normalizer._closure_of(self, rw, op)
+                if r is not None or op['k'] not in ('copy', 'move') or op['pl']['p']: return r
+                d = rw.single_def(op['pl']['l'])
+                if d is not None and d[0] == 'stmt' and d[2]['rv']['k'] == 'ref' and d[2]['rv']['pl']['p'] in ([], ['*']):
+                    return self._closure_of(rw, {'k': 'copy', 'pl': {'l': d[2]['rv']['pl']['l'], 'p': []}})       # `&mut f`, `&f`
+                return None
+
+            def _walk_chain(self, rw, local):
+                # the consumer takes `&mut chain` (try_fold, by_ref): look at the chain itself
+                for _ in range(4):
+                    d = rw.single_def(local)
+                    if d is not None and d[0] == 'stmt' and d[2]['rv']['k'] == 'ref' and d[2]['rv']['pl']['p'] in ([], ['*']): local = d[2]['rv']['pl']['l']
+                    else: break
+                return normalize.Normalizer._walk_chain(self, rw, local)
+
+        N = Wider(raw, known, True)
+        d = N.body(body.name)
+        if d is None or d is raw.bodies[body.name].d: return body
+        from ..facts import Body
+        nb = Body(d); nb.facts = ctx.F
+        nb.renormalised = True
+        if len(nb.blocks) == len(body.blocks): return body
+        return nb
+    except Exception:
+        return body
+
+
+def with_renormalised(ctx, body, fn):
+    """run fn(body') on the re-normalised body with a clean slicer cache for that function name, and clean it again afterwards"""
+    nb = renormalised(ctx, body)
+    if nb is body: return fn(body)
+    def evict():
+        ctx.S._graphs.pop(body.name, None)
+        for k in [k for k in ctx.S._summ if k[0] == body.name]: ctx.S._summ.pop(k, None)
+    evict()
+    try: return fn(nb)
+    finally: evict()
+
+
+# ------------------------------------------------------------------------------------------------
 # "insert only if the key is absent"
 # ------------------------------------------------------------------------------------------------
 def absent_inserts(ctx, body, blocks):
